@@ -242,18 +242,18 @@ def processQName (name : Str) : QName :=
 
 def xmlnsName : Str := "xmlns".toList
 
-/-- `finish_attribute` -/
+/-- `finish_attribute`: duplicates are detected by qualified name; namespace declarations go first -/
 def finishAttribute (m : Mach) : Mach :=
   if m.attrName.isEmpty then m else
-  let name := m.attrName
-  if m.tagAttrs.any (fun a => a.name.loc == name) then
+  let q := processQName m.attrName
+  if m.tagAttrs.any (fun a => a.name == q) then
     let m := emitErr m "Duplicate attribute"
     { m with attrName := [], attrValue := [] }
   else
-    let q := processQName name
     let attr : Attr := ⟨q, m.attrValue⟩
     let m := { m with attrName := [], attrValue := [] }
-    if q.loc == xmlnsName || q.pfx == some xmlnsName then { m with tagAttrs := attr :: m.tagAttrs }
+    if (q.pfx.isNone && q.loc == xmlnsName) || q.pfx == some xmlnsName then
+      { m with tagAttrs := attr :: m.tagAttrs }
     else { m with tagAttrs := m.tagAttrs ++ [attr] }
 
 def createAttr (c : Char) (m : Mach) : Mach :=
